@@ -8,11 +8,24 @@ from tr_util import Gen
 MUT = re.compile(r"\b(Atomic\w*|Mutex|RwLock|RefCell|Cell|UnsafeCell|OnceCell|OnceLock|Lazy|LazyLock)\b")
 
 
+# uses of an interior-mutability type that were read and are local to one call (no state survives it):
+# (file, whitespace-free line) -> why
+REVIEWED_SITES = {
+    ("src/hb/ot_shaper_use_machine.rs", "usecore::cell::Cell;"): "import for the line below",
+    ("src/hb/ot_shaper_use_machine.rs", "letinfos=Cell::as_slice_of_cells(Cell::from_mut(&mutbuffer.info));"):
+        "a Cell VIEW of the caller's &mut buffer for the duration of find_syllables_use; nothing is stored",
+    ("src/hb/ot_shaper_use_machine.rs", "buffer:&[Cell<hb_glyph_info_t>],"): "parameter: the borrowed Cell view above",
+    ("src/hb/ot_shaper_use_machine.rs", "fnincluded(infos:&[Cell<hb_glyph_info_t>],i:usize)->bool{"): "parameter: the borrowed Cell view above",
+    ("src/hb/shape_wasm.rs", "config.compilation_mode(wasmi::CompilationMode::Lazy);"): "an enum variant of the wasm runtime, not std's Lazy",
+}
+
+
 def run(repo, fails):
     g = Gen("Audit")
     g.header("audit of global mutable state and unsafe code in /repo/src (regenerated each run)")
     statics = []
     unsafes = []
+    interior = []
     nfiles = 0
     for root, _, fs in os.walk(os.path.join(repo, "src")):
         if os.sep + "verif" in root:
@@ -35,6 +48,10 @@ def run(repo, fails):
                     decl = " ".join(lines[i:i + 3])
                     if MUT.search(decl.split("=")[0]):
                         statics.append("%s:%d" % (rel, i + 1))
+                # any other mention of an interior-mutability type (a struct field, a local, a type alias): hidden state in a
+                # Face, a plan or a buffer would be exactly that
+                if MUT.search(code) and (rel.replace(os.sep, "/"), re.sub(r"\s+", "", code)) not in REVIEWED_SITES:
+                    interior.append("%s:%d" % (rel, i + 1))
                 if re.search(r"\bunsafe\b", code) and not re.search(r"unsafe impl bytemuck::(Zeroable|Pod) for", code):
                     unsafes.append("%s:%d" % (rel, i + 1))
     if nfiles < 40:
@@ -43,4 +60,6 @@ def run(repo, fails):
     g.defN("audited_files", nfiles)
     g.defN("shared_mutable_statics", len(statics))
     g.defN("unsafe_sites", len(unsafes))
+    g.raw("(* interior-mutability mentions outside the reviewed sites: %s *)" % (", ".join(interior) or "none"))
+    g.defN("unreviewed_interior_mutability_sites", len(interior))
     return [g]
